@@ -110,9 +110,13 @@ Definition usable_nameb (r : str) : bool :=
 (* the defect classes the models know about *)
 Definition keyword_not_reserved (r : str) : bool := is_keyword r && negb (is_reserved r).
 
-(* verdict on one generated name: 0 usable, 1 keyword missing from stop_words, 2 not an identifier *)
+(* verdict on one generated name: 0 usable, 1 = the keyword known to be missing from stop_words
+   ("await", theorem C07_safe_name_is_identifier), 3 = any OTHER keyword that is not reserved,
+   2 = not an identifier *)
 Definition name_verdict (r : str) : N :=
-  if usable_nameb r then 0 else if keyword_not_reserved r then 1 else 2.
+  if usable_nameb r then 0
+  else if keyword_not_reserved r then (if str_eqb r (PyIdent.lit "await") then 1 else 3)
+  else 2.
 
 (* names reaching final_field_name: for an enumeration class the members are constants *)
 Definition final_names (cv : conventions) (enum : bool) (l : list attr) : list sres :=
@@ -130,6 +134,14 @@ Definition oracle_fields_distinct (c : list str) : bool := nodupb c.
      2 = the model reproduces the field names, slugs are distinct, the collision is created
          by safe_name's prefix / suffix adjustment
      0 = the model does not explain it *)
+(* some name whose final form occurs twice was adjusted by safe_name (the final form is not the
+   convention applied to the name itself) *)
+Definition adjusted_collision (case : str -> option str) (names finals : list str) : bool :=
+  existsb (fun nf => let '(n, f) := nf in
+             negb (opt_eqb str_eqb (case n) (Some f)) &&
+             Nat.ltb 1 (List.length (filter (str_eqb f) finals)))
+          (combine names finals).
+
 Definition classify_dup_fields (c : list (str * str) * bool * list str * list str) : N :=
   let '(cl, enum, names, fields) := c in
   match conv_of cl with
@@ -139,7 +151,8 @@ Definition classify_dup_fields (c : list (str * str) * bool * list str * list st
       if negb (lstr_eqb model fields) then 0
       else if nodupb fields then 0
       else if negb (nodupb (map alnum names)) then 1
-      else 2
+      else if adjusted_collision (apply_case (if enum then constant_case cv else field_case cv)) names fields then 2
+      else 0
   end.
 
 (* same for the class names of one module (names = Class.name after RenameDuplicateClasses) *)
@@ -152,7 +165,8 @@ Definition classify_dup_classes (c : list (str * str) * list str * list str) : N
       if negb (lstr_eqb model class_names) then 0
       else if nodupb class_names then 0
       else if negb (nodupb (map alnum names)) then 1
-      else 2
+      else if adjusted_collision (apply_case (class_case cv)) names class_names then 2
+      else 0
   end.
 
 (* did the attr-level rename model predict a by-preference collision for this input? *)
